@@ -24,7 +24,7 @@ let render_subs l = join "+" (List.map render_sub l)
 let render_tlv (t : tlv) : string =
   let h k ty len rest = Printf.sprintf "%s,%s,%s,%s" k (ni ty) (ni len) rest in
   match t with
-  | TArea (ty, len, areas) -> h "A" ty len (join "|" (List.map hex_of areas))
+  | TArea (ty, len, areas) -> h "A" ty len (if areas = [] then "-" else String.concat "|" (List.map hex_of areas))
   | TChecksum (ty, len, cs) -> h "K" ty len (ni cs)
   | TDynHost (ty, len, nm) -> h "D" ty len (hex_of nm)
   | TProto (ty, len, ids) -> h "S" ty len (hex_of ids)
@@ -75,9 +75,10 @@ let parse_subs s =
     | ["a"; ty; len; a] -> SIPv4 (num ty, num len, num a)
     | ["u"; ty; len; v] -> SRaw (num ty, num len, bytes_of v)
     | _ -> failwith ("sub " ^ x)) (split '+' s)
+let parse_areas v = if v = "-" then [] else List.map bytes_of (String.split_on_char '|' v)
 let parse_tlv s =
   match String.split_on_char ',' s with
-  | ["A"; ty; len; v] -> TArea (num ty, num len, List.map bytes_of (split '|' v))
+  | ["A"; ty; len; v] -> TArea (num ty, num len, parse_areas v)
   | ["K"; ty; len; v] -> TChecksum (num ty, num len, num v)
   | ["D"; ty; len; v] -> TDynHost (num ty, num len, bytes_of v)
   | ["S"; ty; len; v] -> TProto (num ty, num len, bytes_of v)
@@ -141,6 +142,34 @@ let model_obs (inp : string list) : string list =
     (match parse_body b with
      | BLsp x -> [render_body (BLsp (lsp_set_checksum (lsp_update_length x)))]
      | _ -> failwith "K wants an LSP")
+  | "T" :: ctor :: args ->
+    let arg i = (try List.nth args i with _ -> failwith "T: argument missing") in
+    let t =
+      match ctor with
+      | "area" -> new_area_tlv (parse_areas (arg 0))
+      | "host" -> new_dynhost_tlv (bytes_of (arg 0))
+      | "proto" -> new_proto_tlv (bytes_of (arg 0))
+      | "ipif" -> new_ipif_tlv (List.map num (split '|' (arg 0)))
+      | "entries" -> new_entries_tlv (parse_entries (arg 0))
+      | "p2padj" -> new_p2padj_tlv (num (arg 0)) (num (arg 1))
+      | "pad" -> new_padding_tlv (num (arg 0))
+      | "terid" -> new_terid_tlv (num (arg 0))
+      | "extis" ->
+        new_extis_tlv (List.map (fun x ->
+          match String.split_on_char '.' x with
+          | [id; m; _; subs] -> new_extis_nbr (bytes_of id) (num m) (parse_subs subs)
+          | _ -> failwith ("extis neighbor " ^ x)) (split '|' (arg 0)))
+      | "extip" ->
+        new_extip_tlv (List.map (fun x ->
+          match String.split_on_char '.' x with
+          | [m; p; a] -> ((num m, num p), num a)
+          | _ -> failwith ("extip reach " ^ x)) (split '|' (arg 0)))
+      | _ -> failwith ("constructor " ^ ctor) in
+    let z = n_of_int 0 in
+    let p = { p_hdr = snp_header 0x14 27;
+              p_body = BLsp { ls_len = z; ls_life = z; ls_id = List.init 8 (fun _ -> z); ls_seq = z; ls_csum = z; ls_tb = z; ls_tlvs = [t] } } in
+    let wire = enc_packet llc p in
+    [render_tlv t; hex_of wire; render_res render_pkt (decode wire)]
   | [("C" | "P") as st; ml; src; es] ->
     let ml = z_of_int (int_of_string ml) and src = bytes_of src and es = parse_entries es in
     let bodies =
